@@ -52,6 +52,12 @@ type Verifier struct {
 	trivial          int
 	maxVisits        int
 	preamble         string
+	opaqueGlobals    map[*ssa.Global]*Object
+	initLike         bool
+	globalArrLen     map[*Object]int64
+	noMerge          bool
+	strictSliceLen   bool
+	smtFuncs         map[string]*Sort
 	constArr         bool
 	specConsts       map[string]*big.Int
 	allowed          []allowedLoc
@@ -273,8 +279,14 @@ func (v *Verifier) globalPtr(st *State, g *ssa.Global) Value {
 	if o, ok := v.sentinelGlobal(st, g); ok {
 		return &PtrV{Obj: o}
 	}
-	unsup("package-level variable %s", g.Name())
-	return nil
+	// any other package-level variable: an address without modelled content (only loads and stores fail)
+	if o, ok := v.opaqueGlobals[g]; ok {
+		return &PtrV{Obj: o}
+	}
+	o := v.newObject("glob."+g.Name(), g.Type().Underlying().(*types.Pointer).Elem(), true)
+	o.Global = true
+	v.opaqueGlobals[g] = o
+	return &PtrV{Obj: o}
 }
 
 // globalObj models a package-level variable whose value is fixed by its initialiser: the package init
@@ -291,6 +303,22 @@ func (v *Verifier) globalObj(st *State, g *ssa.Global) (*Object, bool) {
 	}
 	v.globals[g] = nil
 	t := g.Type().Underlying().(*types.Pointer).Elem()
+	if at, isArr := t.Underlying().(*types.Array); isArr && v.isAbstract(at.Elem()) && g.Pkg != nil {
+		// table of abstract elements (round constants): a fixed symbolic array
+		if v.globalWrittenOutsideInitLike(g) {
+			return nil, false
+		}
+		o := v.newObject(g.Name(), types.NewSlice(at.Elem()), true)
+		o.Global = true
+		arr := v.F.Var("glob."+g.Pkg.Pkg.Name()+"."+g.Name(), arraySort(v.abstractSort(at.Elem())))
+		val := &ArrV{Arr: arr, Elem: at.Elem()}
+		v.globals[g] = o
+		v.globalInit[g] = val
+		st.mem[o] = val
+		v.globalArrLen[o] = at.Len()
+		v.assume("package-level table " + g.Pkg.Pkg.Name() + "." + g.Name() + " is a fixed array of field elements (written only by initialisation functions: checked syntactically); its numeric contents are not checked at the ring layer")
+		return o, true
+	}
 	if v.isAbstract(t) {
 		if g.Pkg == nil || v.globalWrittenOutsideInit(g) {
 			return nil, false
@@ -411,10 +439,19 @@ func (v *Verifier) sentinelGlobal(st *State, g *ssa.Global) (*Object, bool) {
 	return o, true
 }
 
+func (v *Verifier) globalWrittenOutsideInitLike(g *ssa.Global) bool {
+	v.initLike = true
+	defer func() { v.initLike = false }()
+	return v.globalWrittenOutsideInit(g)
+}
+
 func (v *Verifier) globalWrittenOutsideInit(g *ssa.Global) bool {
 	pkg := g.Pkg
 	check := func(f *ssa.Function) bool {
 		isInit := f.Name() == "init" && f.Synthetic != ""
+		if v.initLike && strings.HasPrefix(f.Name(), "init") {
+			isInit = true
+		}
 		for _, b := range f.Blocks {
 			for _, ins := range b.Instrs {
 				if s, ok := ins.(*ssa.Store); ok {
@@ -808,7 +845,13 @@ func (v *Verifier) freshOfType(name string, t types.Type, cur Value) Value {
 			v.F.VarHi[arr] = ii.hi()
 		}
 		return &ArrV{Arr: arr, Elem: c.Elem}
-	case *PtrV, *SliceV, *IfaceV, *FuncV, *MapV:
+	case *SliceV:
+		if st, ok := t.Underlying().(*types.Slice); ok && v.scalarSort(st.Elem()) != nil {
+			// the slice header itself may have been reassigned (append): fresh backing store, length and capacity
+			return v.symSlice(name, st.Elem(), false, false)
+		}
+		return cur
+	case *PtrV, *IfaceV, *FuncV, *MapV:
 		return cur
 	case *Term:
 		if c.S != SInt && c.S != SBool {
@@ -816,7 +859,7 @@ func (v *Verifier) freshOfType(name string, t types.Type, cur Value) Value {
 		}
 	}
 	if v.isAbstract(t) {
-		return v.F.Var(name, SInt)
+		return v.F.Var(name, v.abstractSort(t))
 	}
 	switch u := t.Underlying().(type) {
 	case *types.Array:
